@@ -4,6 +4,7 @@ package main
 // (DESIGN §2.3, Appendix A.5).
 
 import (
+	"sync/atomic"
 	"fmt"
 	"os"
 	"go/token"
@@ -213,6 +214,9 @@ func independent(a, b OpSig) bool {
 }
 
 // schedule picks the next thread; forks one state per candidate. Returns false if the path is redundant.
+// maxThreadOps bounds the shared-memory operations of one thread on one path (livelock detection).
+const maxThreadOps = 3000
+
 func (w *Worker) schedule(s *State) bool {
 	s.threads[s.cur].frames = s.frames
 	s.threads[s.cur].panicking, s.threads[s.cur].panicV = s.panicking, s.panicV
@@ -223,6 +227,12 @@ func (w *Worker) schedule(s *State) bool {
 	var cands []cand
 	blocked, yielded := 0, 0
 	for t, th := range s.threads {
+		if th.ops > maxThreadOps && len(th.frames) > 0 {
+			// no harness thread needs this many shared-memory operations: the thread is looping without waiting for
+			// anybody (a spin that yields is parked by the scheduler and never gets here)
+			atomic.StoreInt64(&s.job.stopped, 1)
+			bail("NONTERMINATION thread %d performed more than %d shared-memory operations without finishing (livelock)", t, maxThreadOps)
+		}
 		if len(th.frames) == 0 {
 			continue
 		}
@@ -300,6 +310,7 @@ func (w *Worker) schedule(s *State) bool {
 	// cell while nobody writes is busy-waiting; after 3 such loads it is treated like a Gosched yield.
 	wake := func(st *State, c cand) {
 		th := st.threads[c.t]
+		th.ops++
 		if c.sig.kind == "write" {
 			st.writeSeq++
 			for t, o := range st.threads {
